@@ -225,18 +225,22 @@ class VLoop(asyncio.AbstractEventLoop):
         self.run_ready()
         return True
 
-    def advance_to(self, t):
-        """Fire every timer due before t in deadline order, then set the clock to t."""
+    def advance_to(self, t, inclusive=True, run=True):
+        """Fire every timer due before t (and, if inclusive, at t) in deadline order, then
+        set the clock to t.  With inclusive=False timers due exactly at t stay pending so
+        that the caller can act first at the same instant (same-instant ordering is not
+        specified by asyncio)."""
         while True:
             d = self.next_deadline()
-            if d is None or d > t:
+            if d is None or d > t or (not inclusive and d == t):
                 break
             if d > self.now:
                 self.now = d
             self.run_ready()
         if t > self.now:
             self.now = t
-        self.run_ready()
+        if inclusive and run:
+            self.run_ready()
 
 
 _installed = []
